@@ -426,7 +426,7 @@ func genCase(r *rand.Rand, mode string) (caseCfg, []hop) {
 		return cfg, ops
 	}
 	nops := 10 + r.Intn(50)
-	lifetimes := []int{-1, -1, 50, 300, 1000, 2500}
+	lifetimes := []int{-1, -1, 0, 1, 50, 300, 1000, 2500} // -1 = no InterestLifetime (default applies); 0 is a lifetime of 0 ms
 	freshes := []int{-1, 0, 1, 100, 1000, 5000, 5000}
 	noncePool := make([]uint32, 6)
 	for i := range noncePool {
